@@ -231,6 +231,11 @@ def interp(facts, fuel=400000):
                     raise minirust.NoEval('Scalar4::new(%r, %r)' % (co, pw))
                 return HScalar(Qw(co) * Qw((Fr(2) ** pw, 0, 0, 0)))
             raise minirust.NoEval('scalar constructor %s' % c)
+        if c == GL + '::new' and not e['args'] and it.self_ty and ('<%s as %s>::new' % (it.self_ty[-1], GL)) in facts['fns']:
+            g_ = it.local_call('<%s as %s>::new' % (it.self_ty[-1], GL), [])
+            g_['scalar'] = HScalar(Q1)
+            g_['scalar_factors'] = FactorMap()
+            return g_
         if t == PHASE and last in ('from', 'into') and len(e['args']) == 1 and ('convert::From' in c or 'convert::Into' in c):
             return it.host_into(args()[0], PHASE)
         return ratsem.host_call(c, e, args)
@@ -1103,3 +1108,786 @@ def oracle_controls():
     no_var = D({'i': ('B', 0, ()), 'a': ('Z', Fr(3, 4), ()), 'o': ('B', 0, ())}, {('i', 'a'): 'N', ('a', 'o'): 'H'}, ['i'], ['o'])
     apart = same_map(two, one, None, None) == '' and all(same_map(two, w, None, None) != '' for w in (wrong_phase, wrong_edge, wrong_scalar, no_var))
     return agree and n > 20, apart
+
+
+# ----------------------------------------------------------------------------------------------------------------- circuit -> diagram (C02)
+def gate(kind, qs, ph=0):
+    return {'__struct__': 'gate::Gate', 't': ('const', 'gate::GType::' + kind), 'qs': list(qs), 'phase': phase(ph), 'vars': par(())}
+
+
+def circuit(n, gates):
+    return {'__struct__': 'circuit::Circuit', 'nqubits': n, 'gates': minirust.Deque([gate(*g) for g in gates])}
+
+
+def _apply_1q(vec, q, m):
+    new = {}
+    for b, v in vec.items():
+        for out in (0, 1):
+            c = m[out][b[q]]
+            if c.is_zero():
+                continue
+            nb = b[:q] + (out,) + b[q + 1:]
+            new[nb] = new.get(nb, Q0) + c * v
+    return dict((k, v) for k, v in new.items() if not v.is_zero())
+
+
+HMAT = [[INV_SQRT2, INV_SQRT2], [INV_SQRT2, -INV_SQRT2]]
+
+
+def circuit_map(n, gates):
+    """the linear map of the circuit by the reference gate semantics (refs/gates.py): {(bits of the open inputs) + (bits of the open outputs): Qw}.
+    InitAncilla on a qubit nothing has acted on feeds |0> (its input is closed); PostSelect applies <0| and closes the output."""
+    from refs import gates as R
+    closed_in = set()
+    touched = set()
+    for kind, qs, *_p in gates:
+        if kind == 'InitAncilla' and qs[0] not in touched:
+            closed_in.add(qs[0])
+        touched.update(qs)
+    open_in = [q for q in range(n) if q not in closed_in]
+    out = {}
+    closed_out = None
+    for inb in itertools.product((0, 1), repeat=len(open_in)):
+        bits = [0] * n
+        for q, b in zip(open_in, inb):
+            bits[q] = b
+        vec = {tuple(bits): Q1}
+        dead = set()
+        acted = set()
+        for g in gates:
+            kind, qs = g[0], list(g[1])
+            ph = Fr(g[2]) if len(g) > 2 else Fr(0)
+            if any(q in dead for q in qs):
+                continue                      # (documented: later gates on a post-selected qubit are ignored)
+            spec = R.GATES[kind]
+            if spec['cls'] == 'diag':
+                p = ph if spec['phase'] == 'param' else spec['phase']
+                for i in spec['hset']:
+                    vec = _apply_1q(vec, qs[i], HMAT)
+                e = expi(p)
+                vec = dict((b, (v * e if all(b[q] for q in qs) else v)) for b, v in vec.items())
+                for i in spec['hset']:
+                    vec = _apply_1q(vec, qs[i], HMAT)
+            elif spec['cls'] == 'had':
+                vec = _apply_1q(vec, qs[0], HMAT)
+            elif spec['cls'] == 'perm':
+                a, c = qs
+                new = {}
+                for b, v in vec.items():
+                    nb = list(b)
+                    nb[a], nb[c] = b[c], b[a]
+                    new[tuple(nb)] = v
+                vec = new
+            elif spec['cls'] == 'parity':
+                e = expi(ph)
+                vec = dict((b, (v * e if sum(b[q] for q in qs) % 2 else v)) for b, v in vec.items())
+            elif kind == 'InitAncilla':
+                if qs[0] in acted:
+                    pass                      # (documented: a no-op once a gate has been applied to the qubit)
+            elif kind == 'PostSelect':
+                vec = dict((b, v) for b, v in vec.items() if b[qs[0]] == 0)
+                dead.add(qs[0])
+            else:
+                raise minirust.NoEval('no reference semantics for %s' % kind)
+            acted.update(qs)
+        open_out = [q for q in range(n) if q not in dead]
+        if closed_out is None:
+            closed_out = dead
+        for b, v in vec.items():
+            key = tuple(inb) + tuple(b[q] for q in open_out)
+            out[key] = out.get(key, Q0) + v
+    return dict((k, v) for k, v in out.items() if not v.is_zero())
+
+
+MODES = [(False, False), (True, False), (False, True)]
+
+
+def translate(facts, ty, n, gates, mode):
+    it = interp(facts, 3000000)
+    it.inline = lambda c: c.startswith(INLINE + ('circuit::', '<circuit::', 'gate::', '<gate::', 'util::'))
+    it.self_ty.append(ty)
+    g = it.local_call('circuit::Circuit::to_graph_with_options', [circuit(n, gates), mode[0], mode[1]])
+    if not (isinstance(g, dict) and g.get('__struct__') == ty):
+        raise minirust.NoEval('to_graph_with_options returned %r' % (type(g),))
+    return read(Backend(facts, ty, g))
+
+
+PH_ = (Fr(1, 4), Fr(1, 2), 1, Fr(-1, 4), Fr(3, 4))
+
+
+def family_circuits():
+    """[(qubits, [(kind, qubits, phase)])]: every unitary gate kind on every tuple of distinct qubits of 1..3 wires (five phases for the parametrised kinds,
+    parity-phase gadgets of every arity), every ordered pair of a two-qubit-universal subset on two wires, and ancilla initialisation / post-selection
+    as the first / last operation of a wire around them"""
+    from refs import gates as R
+    singles = {}
+    for n in (1, 2, 3):
+        gs = []
+        for kind in R.UNITARY:
+            spec = R.GATES[kind]
+            if kind == 'ParityPhase':
+                for ar in range(1, n + 1):
+                    for qs in itertools.combinations(range(n), ar):
+                        for p in PH_[:2]:
+                            gs.append((kind, qs, p))
+                continue
+            for qs in itertools.permutations(range(n), spec['arity']):
+                if spec['phase'] == 'param':
+                    for p in PH_:
+                        gs.append((kind, qs, p))
+                else:
+                    gs.append((kind, qs))
+        singles[n] = gs
+        for g in gs:
+            yield n, [g]
+    small = [g for g in singles[2] if g[0] in ('T', 'HAD', 'CNOT', 'CZ', 'SWAP', 'S', 'NOT', 'XCX') or (g[0] in ('ZPhase', 'XPhase', 'ParityPhase') and g[2] == Fr(1, 4))]
+    for a in small:
+        for b in small:
+            yield 2, [a, b]
+    three = [g for g in singles[3] if g[0] in ('TOFF', 'CCZ', 'SWAP', 'CNOT') or (g[0] == 'ParityPhase' and len(g[1]) == 3 and g[2] == Fr(1, 4))]
+    for a in three:
+        for b in [g for g in singles[3] if g[0] in ('HAD', 'T', 'SWAP')]:
+            yield 3, [b, a]
+            yield 3, [a, b]
+    # ancilla initialisation first, post-selection last
+    for n in (2, 3):
+        body = [g for g in singles[n] if g[0] in ('CNOT', 'CZ', 'HAD', 'T', 'SWAP', 'TOFF', 'CCZ', 'XCX') or (g[0] == 'ParityPhase' and g[2] == Fr(1, 4))]
+        for q in range(n):
+            for g in body:
+                yield n, [('InitAncilla', (q,)), g]
+                yield n, [g, ('PostSelect', (q,))]
+                yield n, [('InitAncilla', (q,)), g, ('PostSelect', ((q + 1) % n,))]
+        for g in body:
+            yield n, [('HAD', (0,)), g, ('PostSelect', (0,)), ('T', (n - 1,))]
+
+
+def _circ_job(job):
+    ty, stride, offset, every = job
+    facts = _G['facts']
+    st = {'circuits': 0, 'translations': 0, 'declined': 0}
+    bad, declined = [], {}
+    for i, (n, gs) in enumerate(x for j, x in enumerate(family_circuits()) if j % every == 0):
+        if i % stride != offset:
+            continue
+        st['circuits'] += 1
+        try:
+            want = circuit_map(n, gs)
+        except minirust.NoEval as ex:
+            st['declined'] += 1
+            declined.setdefault('oracle: ' + str(ex)[:70], (n, gs))
+            continue
+        for mode in MODES:
+            name = 'to_graph_with_options(simplify=%s, postselect=%s)' % mode
+            try:
+                try:
+                    d = translate(facts, ty, n, gs, mode)
+                except minirust.Panics as ex:
+                    bad.append((name, '%d qubits: %s' % (n, _showc(gs)), (), 'panics: %s' % ex))
+                    continue
+                st['translations'] += 1
+                got = tensor(d, {})
+                if got != want:
+                    bad.append((name, '%d qubits: %s' % (n, _showc(gs)), (), 'the diagram %s (scalar %s) denotes %s, the circuit %s' % (d.show(), d.scalar.c, _showt(got), _showt(want))))
+            except minirust.NoEval as ex:
+                st['declined'] += 1
+                declined.setdefault(str(ex)[:80], (n, _showc(gs)))
+    st['declined_reasons'] = declined
+    return st, bad[:50]
+
+
+def _showc(gs):
+    return '; '.join('%s%s%s' % (g[0], list(g[1]), ('(%s)' % g[2]) if len(g) > 2 else '') for g in gs)
+
+
+def run_circuits(facts, plan, procs=8):
+    """plan: [(back end, take every k-th circuit)]"""
+    _G['facts'] = facts
+    jobs = [(ty, procs, off, every) for ty, every in plan for off in range(procs)]
+    pool = None
+    if procs > 1:
+        try:
+            import multiprocessing
+            pool = multiprocessing.get_context('fork').Pool(procs)
+        except Exception:
+            pool = None
+    try:
+        results = pool.map(_circ_job, jobs, chunksize=1) if pool is not None else [_circ_job(j) for j in jobs]
+    finally:
+        if pool is not None:
+            pool.terminate()
+            pool.join()
+    tot = {'circuits': 0, 'translations': 0, 'declined': 0}
+    bad, declined = [], {}
+    for (ty, _s, _o, _e), (st, b) in zip(jobs, results):
+        for k in ('circuits', 'translations', 'declined'):
+            tot[k] += st[k]
+        bad.extend((ty,) + tuple(x) for x in b)
+        for k, v in st['declined_reasons'].items():
+            declined.setdefault(k, v)
+    return tot, bad, declined
+
+
+# ----------------------------------------------------------------------------------------------------------------- extraction (C03)
+class BitMat(minirust.Obj):
+    """host model of bitgauss::BitMatrix (external crate, v0.3.4) for matrices of fewer than 64 columns: a faithful port of gauss_helper (Patel-Markov-
+    Hayes chunks included) that reports every row operation to a proxy — another BitMat, or an interpreted value whose `RowOps` impl is called back"""
+
+    def __init__(self, rows, ncols, it=None):
+        self.m = [list(map(bool, r)) for r in rows]
+        self.nc = ncols
+        self.it = it
+        if ncols >= 64:
+            raise minirust.NoEval('a bit matrix with %d columns' % ncols)
+        minirust.Obj.__init__(self, 'bitmatrix', {
+            'rows': lambda a: len(self.m), 'cols': lambda a: self.nc, 'clone': lambda a: self.mr_clone(), 'row_weight': lambda a: sum(self.m[a[0]]),
+            'add_row': lambda a: self._add(a[0], a[1]), 'swap_rows': lambda a: self._swap(a[0], a[1]), 'bit': lambda a: self.getitem((a[0], a[1])),
+            'set_bit': lambda a: self._set(a[0], a[1], a[2]), 'gauss_with_proxy': self._gauss, 'gauss': lambda a: self._gauss([a[0], 1, None]), 'rank': lambda a: len(self.mr_clone()._helper(False, 1, None)),
+        }, strict=True)
+
+    def mr_clone(self):
+        return BitMat(self.m, self.nc, self.it)
+
+    def getitem(self, ij):
+        i, j = ij
+        if not (0 <= i < len(self.m) and 0 <= j < self.nc):
+            raise minirust.Panics('bit matrix index (%d, %d) out of bounds' % (i, j))
+        return self.m[i][j]
+
+    def _set(self, i, j, b):
+        if not (0 <= i < len(self.m) and 0 <= j < self.nc):
+            raise minirust.Panics('bit matrix index (%d, %d) out of bounds' % (i, j))
+        self.m[i][j] = bool(b)
+        return ()
+
+    def _add(self, frm, to):
+        if not (0 <= frm < len(self.m) and 0 <= to < len(self.m)):
+            raise minirust.Panics('row index out of bounds')
+        self.m[to] = [a != b for a, b in zip(self.m[to], self.m[frm])]
+        return ()
+
+    def _swap(self, a, b):
+        if not (0 <= a < len(self.m) and 0 <= b < len(self.m)):
+            raise minirust.Panics('row index out of bounds')
+        self.m[a], self.m[b] = self.m[b], self.m[a]
+        return ()
+
+    def _proxy(self, proxy, op, a, b):
+        if proxy is None:
+            return
+        if isinstance(proxy, minirust.Cell):
+            proxy = proxy.get()
+        if isinstance(proxy, BitMat):
+            (proxy._add if op == 'add_row' else proxy._swap)(a, b)
+            return
+        if isinstance(proxy, dict) and '__struct__' in proxy and self.it is not None:
+            k = '<%s as bitgauss::RowOps>::%s' % (proxy['__struct__'], op)
+            if k in self.it.facts['fns']:
+                self.it.local_call(k, [proxy, a, b])
+                return
+        raise minirust.NoEval('row-operation proxy %r' % (type(proxy).__name__,))
+
+    def _gauss(self, a):
+        full, chunk, proxy = a
+        self._helper(bool(full), chunk, proxy)
+        return ()
+
+    def _chunkbits(self, i, cs, col):
+        i0 = (col // cs) * cs
+        i1 = min(i0 + cs, 64)
+        return (i0, i1, tuple(self.m[i][j] for j in range(i0, min(i1, self.nc))))
+
+    def _helper(self, full, chunksize, proxy):
+        R = len(self.m)
+        row, pcol, pcols, chunk_end = 0, 0, [], 0
+        chunksize = min(chunksize, 64)
+        while row < R:
+            next_row = None
+            while pcol < self.nc:
+                for i in range(row, R):
+                    if self.m[i][pcol]:
+                        next_row = i
+                        break
+                if next_row is not None:
+                    break
+                pcol += 1
+            if next_row is None:
+                break
+            row1 = next_row
+            if row != row1:
+                self._swap(row, row1)
+                self._proxy(proxy, 'swap_rows', row, row1)
+            if chunksize > 1 and pcol >= chunk_end:
+                _i0, chunk_end, _b = self._chunkbits(0, chunksize, pcol)
+                seen = {}
+                for i in range(row, R):
+                    bits = self._chunkbits(i, chunksize, pcol)[2]
+                    if any(bits):
+                        if bits in seen:
+                            self._add(seen[bits], i)
+                            self._proxy(proxy, 'add_row', seen[bits], i)
+                        else:
+                            seen[bits] = i
+            row_vec = list(self.m[row])
+            for i in range(row1 + 1, R):
+                if self.m[i][pcol]:
+                    self.m[i] = [x != y for x, y in zip(self.m[i], row_vec)]
+                    self._proxy(proxy, 'add_row', row, i)
+            row += 1
+            pcols.append(pcol)
+            pcol += 1
+        if full:
+            chunk_start = self.nc
+            for row in range(len(pcols) - 1, -1, -1):
+                pcol = pcols[row]
+                if chunksize > 1 and pcol < chunk_start:
+                    chunk_start = self._chunkbits(0, chunksize, pcol)[0]
+                    seen = {}
+                    for i in range(row, -1, -1):
+                        bits = self._chunkbits(i, chunksize, pcol)[2]
+                        if any(bits):
+                            if bits in seen:
+                                self._add(seen[bits], i)
+                                self._proxy(proxy, 'add_row', seen[bits], i)
+                            else:
+                                seen[bits] = i
+                row_vec = list(self.m[row])
+                for i in range(0, row):
+                    if self.m[i][pcol]:
+                        self.m[i] = [x != y for x, y in zip(self.m[i], row_vec)]
+                        self._proxy(proxy, 'add_row', row, i)
+        return pcols
+
+
+def extraction_interp(facts, ty):
+    it = interp(facts, 6000000)
+    it.inline = lambda c: c.startswith(INLINE + ('circuit::', '<circuit::', 'gate::', '<gate::', 'util::', 'extract::', '<extract::'))
+    it.self_ty.append(ty)
+    base = it.host_call
+
+    def hc(c, e, args):
+        if c.endswith('BitMatrix::build') and len(e['args']) == 3:
+            r, cc, f = args()
+            return BitMat([[f(i, j) for j in range(cc)] for i in range(r)], cc, it)
+        if c.endswith('BitMatrix::identity') and len(e['args']) == 1:
+            n = args()[0]
+            return BitMat([[i == j for j in range(n)] for i in range(n)], n, it)
+        if c.endswith('BitMatrix::zeros') and len(e['args']) == 2:
+            r, cc = args()
+            return BitMat([[False] * cc for _ in range(r)], cc, it)
+        return base(c, e, args)
+    it.host_call = hc
+    return it
+
+
+STRATEGIES = ['simplify::flow_simp', 'simplify::clifford_simp', 'simplify::full_simp']
+EXTRACTORS = ['gflow', 'gflow_simple_gauss', 'flow', 'gflow+up_to_perm']
+EXTRACT_SET = {'HAD', 'ZPhase', 'CZ', 'CNOT', 'SWAP'}
+
+
+def read_circuit(c):
+    if not (isinstance(c, dict) and c.get('__struct__') == 'circuit::Circuit'):
+        raise minirust.NoEval('not a circuit: %r' % (type(c),))
+    out = []
+    for g in list(c['gates']):
+        kind = _short(g['t'])
+        out.append((kind, tuple(g['qs']), phase_value(g['phase'])))
+    return c['nqubits'], out
+
+
+def proportional(a, b):
+    """a = lambda * b for some non-zero scalar lambda (both maps as {key: Qw})"""
+    if set(a) != set(b):
+        return False
+    if not a:
+        return True
+    k0 = sorted(a)[0]
+    return all(a[k] * b[k0] == b[k] * a[k0] for k in a)
+
+
+def extract_case(facts, ty, n, gates, strategy, extractor):
+    """-> '' | what is wrong; raises NoEval when the case is outside the evaluated scope"""
+    want = circuit_map(n, gates)
+    it = extraction_interp(facts, ty)
+    g = it.local_call('circuit::Circuit::to_graph_with_options', [circuit(n, gates), False, False])
+    if strategy is not None:
+        extraction_interp(facts, ty).local_call(strategy, [g])
+    ex = extraction_interp(facts, ty)
+    xk = [k for k in facts['fns'] if k.startswith('extract::Extractor') and k.endswith('::new')]
+    if len(xk) != 1:
+        raise minirust.NoEval('Extractor::new not found')
+    pre = xk[0][:-len('new')]
+    x = ex.local_call(xk[0], [g])
+    for step in extractor.split('+'):
+        extraction_interp(facts, ty).local_call(pre + step, [x])
+    r = extraction_interp(facts, ty).local_call(pre + 'extract', [x])
+    if not (isinstance(r, tuple) and r and r[0] in ('Ok', 'Err')):
+        raise minirust.NoEval('extract returned %r' % (r,))
+    if r[0] == 'Err':
+        msg = r[1].get('0') if isinstance(r[1], dict) else r[1]
+        return 'extraction fails: %s' % (msg,)
+    nq, gs = read_circuit(r[1])
+    if nq != n:
+        return 'the extracted circuit has %d qubits' % nq
+    foreign = sorted(set(k for k, _q, _p in gs) - EXTRACT_SET)
+    if foreign:
+        return 'the extracted circuit uses %s' % foreign
+    got = circuit_map(n, gs)
+    if 'up_to_perm' in extractor:
+        for perm in itertools.permutations(range(n)):
+            permuted = dict((tuple(k[perm[i]] for i in range(n)) + k[n:], v) for k, v in got.items())
+            if proportional(permuted, want):
+                return ''
+        return 'no permutation of the input qubits makes the extracted circuit %s equivalent to the original' % _showc(gs)
+    if not proportional(got, want):
+        return 'the extracted circuit %s implements %s, the original %s' % (_showc(gs), _showt(got), _showt(want))
+    return ''
+
+
+def family_extract_circuits():
+    """unitary circuits of 2..4 gates on two and three wires over a Clifford+T+CCZ subset (built as prefixes / pairs of the translation family)"""
+    import re
+    pool2 = [('HAD', (0,)), ('HAD', (1,)), ('T', (0,)), ('S', (1,)), ('CNOT', (0, 1)), ('CNOT', (1, 0)), ('CZ', (0, 1)), ('ZPhase', (1,), Fr(3, 4)), ('XPhase', (0,), Fr(1, 4)),
+             ('SWAP', (0, 1)), ('NOT', (1,)), ('ParityPhase', (0, 1), Fr(1, 4)), ('XCX', (0, 1))]
+    for a in pool2:
+        yield 2, [a]
+        for b in pool2:
+            yield 2, [a, b]
+    for a, b, c in itertools.product(pool2[:7], repeat=3):
+        yield 2, [a, b, c]
+    pool3 = [('HAD', (0,)), ('HAD', (2,)), ('T', (1,)), ('CNOT', (0, 1)), ('CNOT', (2, 1)), ('CZ', (0, 2)), ('CCZ', (0, 1, 2)), ('TOFF', (0, 1, 2)), ('SWAP', (0, 2)),
+             ('ParityPhase', (0, 1, 2), Fr(1, 4))]
+    for a in pool3:
+        yield 3, [a]
+        for b in pool3:
+            yield 3, [a, b]
+
+
+def _extract_job(job):
+    ty, stride, offset, every = job
+    facts = _G['facts']
+    st = {'circuits': 0, 'cases': 0, 'declined': 0}
+    bad, declined = [], {}
+    saved = minirust.HASH_ITER_SORTED
+    minirust.HASH_ITER_SORTED = True
+    try:
+        _extract_loop(facts, ty, stride, offset, every, st, bad, declined)
+    finally:
+        minirust.HASH_ITER_SORTED = saved
+    st['declined_reasons'] = declined
+    return st, bad[:50]
+
+
+def _extract_loop(facts, ty, stride, offset, every, st, bad, declined):
+    for i, (n, gs) in enumerate(x for j, x in enumerate(family_extract_circuits()) if j % every == 0):
+        if i % stride != offset:
+            continue
+        st['circuits'] += 1
+        for strat in STRATEGIES:
+            for xt in EXTRACTORS:
+                if xt == 'flow' and strat != 'simplify::flow_simp':
+                    continue                    # (the Gauss-free extractor is offered for diagrams with a causal flow only)
+                name = '%s + %s' % ((strat or 'no simplification').rsplit('::', 1)[-1], xt)
+                try:
+                    try:
+                        msg = extract_case(facts, ty, n, gs, strat, xt)
+                    except minirust.Panics as ex:
+                        bad.append((name, '%d qubits: %s' % (n, _showc(gs)), (), 'panics: %s' % ex))
+                        continue
+                    st['cases'] += 1
+                    if msg:
+                        bad.append((name, '%d qubits: %s' % (n, _showc(gs)), (), msg))
+                except minirust.NoEval as ex:
+                    st['declined'] += 1
+                    declined.setdefault(str(ex)[:80], (name, _showc(gs)))
+
+
+def run_extractions(facts, plan, procs=8):
+    _G['facts'] = facts
+    jobs = [(ty, procs, off, every) for ty, every in plan for off in range(procs)]
+    pool = None
+    if procs > 1:
+        try:
+            import multiprocessing
+            pool = multiprocessing.get_context('fork').Pool(procs)
+        except Exception:
+            pool = None
+    try:
+        results = pool.map(_extract_job, jobs, chunksize=1) if pool is not None else [_extract_job(j) for j in jobs]
+    finally:
+        if pool is not None:
+            pool.terminate()
+            pool.join()
+    tot = {'circuits': 0, 'cases': 0, 'declined': 0}
+    bad, declined = [], {}
+    for (ty, _s, _o, _e), (st, b) in zip(jobs, results):
+        for k in ('circuits', 'cases', 'declined'):
+            tot[k] += st[k]
+        bad.extend((ty,) + tuple(x) for x in b)
+        for k, v in st['declined_reasons'].items():
+            declined.setdefault(k, v)
+    return tot, bad, declined
+
+
+# ----------------------------------------------------------------------------------------------------------------- detection webs (C20)
+def _bm_ext(bm):
+    """the further BitMatrix methods detection_webs.rs uses"""
+    def vstack(a):
+        o = a[0]
+        if not isinstance(o, BitMat):
+            raise minirust.NoEval('vstack with %r' % (o,))
+        if o.nc != bm.nc:
+            raise minirust.Panics('vstack of matrices with %d and %d columns' % (bm.nc, o.nc))
+        return _bm_ext(BitMat(bm.m + o.m, bm.nc, bm.it))
+
+    def hstack(a):
+        o = a[0]
+        if not isinstance(o, BitMat):
+            raise minirust.NoEval('hstack with %r' % (o,))
+        if len(o.m) != len(bm.m):
+            raise minirust.Panics('hstack of matrices with %d and %d rows' % (len(bm.m), len(o.m)))
+        return _bm_ext(BitMat([x + y for x, y in zip(bm.m, o.m)], bm.nc + o.nc, bm.it))
+
+    def nullspace(a):
+        """a basis of {x : M x = 0} as 1 x n row matrices (any basis serves the property)"""
+        rows = [list(r) for r in bm.m]
+        n = bm.nc
+        piv = []
+        r = 0
+        for c in range(n):
+            p = next((i for i in range(r, len(rows)) if rows[i][c]), None)
+            if p is None:
+                continue
+            rows[r], rows[p] = rows[p], rows[r]
+            for i in range(len(rows)):
+                if i != r and rows[i][c]:
+                    rows[i] = [x != y for x, y in zip(rows[i], rows[r])]
+            piv.append(c)
+            r += 1
+        free = [c for c in range(n) if c not in piv]
+        out = []
+        for fcol in free:
+            v = [False] * n
+            v[fcol] = True
+            for i, pc in enumerate(piv):
+                if rows[i][fcol]:
+                    v[pc] = True
+            out.append(_bm_ext(BitMat([v], n, bm.it)))
+        return out
+    bm.methods.update({'vstack': vstack, 'hstack': hstack, 'nullspace': nullspace, 'transposed': lambda a: _bm_ext(BitMat([list(c) for c in zip(*bm.m)] if bm.m else [], len(bm.m), bm.it))})
+    bm.mr_clone = lambda: _bm_ext(BitMat(bm.m, bm.nc, bm.it))
+    bm.methods['clone'] = lambda a: bm.mr_clone()
+    return bm
+
+
+def webs_interp(facts):
+    it = interp(facts, 6000000)
+    it.inline = lambda c: c.startswith(INLINE + ('detection_webs::', '<detection_webs::'))
+    it.self_ty.append(VEC)
+    base = it.host_call
+
+    def hc(c, e, args):
+        if c.endswith('BitMatrix::build') and len(e['args']) == 3:
+            r, cc, f = args()
+            return _bm_ext(BitMat([[f(i, j) for j in range(cc)] for i in range(r)], cc, it))
+        if c.endswith('BitMatrix::identity') and len(e['args']) == 1:
+            n = args()[0]
+            return _bm_ext(BitMat([[i == j for j in range(n)] for i in range(n)], n, it))
+        if c.endswith('BitMatrix::zeros') and len(e['args']) == 2:
+            r, cc = args()
+            return _bm_ext(BitMat([[False] * cc for _ in range(r)], cc, it))
+        if c.startswith('env_logger::'):
+            return minirust.Obj('logger', {}, strict=False)
+        return base(c, e, args)
+    it.host_call = hc
+    hm0 = getattr(it, 'host_method', None)
+
+    def hm(callee, nm, recv, args):
+        if isinstance(recv, minirust.Obj) and recv.name == 'logger':
+            return recv if nm in ('is_test', 'filter_level') else ()
+        return hm0(callee, nm, recv, args) if hm0 is not None else NotImplemented
+    it.host_method = hm
+    return it
+
+
+def family_pauli():
+    """small diagrams over Z / X spiders with phases 0 / pi, plain edges, boundaries attached anywhere: (vertex list in insertion order, edges, inputs, outputs)"""
+    shapes = []
+    # spiders 0..k-1 with colours, edges among them, boundary attachments
+    shapes.append((['Z', 'X'], [(0, 1)], [0], [1]))                                    # a wire through two spiders
+    shapes.append((['Z', 'X'], [(0, 1)], [0, 0], [1]))
+    shapes.append((['Z', 'Z'], [(0, 1)], [0], [1]))                                    # same colour: make_bipartite inserts a spider
+    shapes.append((['Z', 'X', 'Z'], [(0, 1), (1, 2)], [0], [2]))
+    shapes.append((['Z', 'X', 'Z', 'X'], [(0, 1), (1, 2), (2, 3), (3, 0)], [], []))     # a closed square: one detection web
+    shapes.append((['Z', 'X', 'Z', 'X'], [(0, 1), (1, 2), (2, 3), (3, 0)], [0], [2]))
+    shapes.append((['Z', 'X', 'X'], [(0, 1), (0, 2)], [1], [2]))
+    shapes.append((['Z', 'Z', 'X', 'X'], [(0, 2), (0, 3), (1, 2), (1, 3)], [], []))     # K2,2
+    shapes.append((['Z', 'Z', 'X', 'X'], [(0, 2), (0, 3), (1, 2), (1, 3)], [0, 1], [2, 3]))
+    shapes.append((['Z', 'Z', 'Z'], [(0, 1), (1, 2), (0, 2)], [], []))                  # a same-colour triangle
+    shapes.append((['X', 'Z', 'X', 'Z', 'X'], [(0, 1), (1, 2), (2, 3), (3, 4), (1, 4)], [0], [2]))
+    shapes.append((['Z'], [], [0], [0]))
+    shapes.append((['Z', 'X', 'Z', 'X', 'Z', 'X'], [(0, 1), (1, 2), (2, 3), (3, 0), (2, 5), (5, 4), (4, 3)], [0], [5]))      # two squares sharing an edge, with boundaries
+    shapes.append((['Z', 'X', 'Z', 'X'], [(0, 1), (1, 2), (2, 3), (3, 0)], [0, 1], [2, 3]))
+    shapes.append((['X', 'X', 'Z'], [(0, 1), (1, 2), (0, 2)], [2], []))
+    shapes.append((['Z', 'X'], [(0, 1)], [], []))                                       # a closed pair
+    shapes.append((['Z', 'X', 'Z', 'X', 'Z'], [(0, 1), (1, 2), (2, 3), (3, 4), (0, 3), (1, 4)], [], [2]))
+    shapes.append((['Z', 'X', 'Z', 'X', 'Z', 'X'], [(0, 1), (1, 2), (2, 3), (3, 4), (4, 5), (5, 0), (0, 3)], [], []))
+    for cols, es, ins, outs in shapes:
+        for order in ('boundaries-first', 'boundaries-last', 'interleaved'):
+            for ph in (0, 1):
+                yield cols, es, ins, outs, order, ph
+
+
+def build_pauli(facts, cols, es, ins, outs, order, ph):
+    """-> Backend, names of the spiders, of the input and output boundary vertices"""
+    be = Backend(facts, VEC)
+    spid, inb, outb = {}, [], []
+
+    def add_spider(i):
+        vd = {'__struct__': 'graph::VData', 'ty': vt(cols[i]), 'phase': phase(ph if i % 2 == 0 else 0), 'vars': par(()), 'qubit': 0.0, 'row': 0.0}
+        spid[i] = be.call('add_vertex_with_data', vd)
+
+    def add_b(lst):
+        vd = {'__struct__': 'graph::VData', 'ty': vt('B'), 'phase': phase(0), 'vars': par(()), 'qubit': 0.0, 'row': 0.0}
+        lst.append(be.call('add_vertex_with_data', vd))
+    nb = len(ins) + len(outs)
+    if order == 'boundaries-first':
+        for _ in ins:
+            add_b(inb)
+        for _ in outs:
+            add_b(outb)
+        for i in range(len(cols)):
+            add_spider(i)
+    elif order == 'boundaries-last':
+        for i in range(len(cols)):
+            add_spider(i)
+        for _ in ins:
+            add_b(inb)
+        for _ in outs:
+            add_b(outb)
+    else:
+        todo_b = [('i', k) for k in range(len(ins))] + [('o', k) for k in range(len(outs))]
+        for i in range(len(cols)):
+            add_spider(i)
+            if todo_b:
+                w, _k = todo_b.pop(0)
+                add_b(inb if w == 'i' else outb)
+        for w, _k in todo_b:
+            add_b(inb if w == 'i' else outb)
+    for a, b in es:
+        be.call('add_edge_with_type', spid[a], spid[b], et('N'))
+    for k, s_ in enumerate(ins):
+        be.call('add_edge_with_type', inb[k], spid[s_], et('N'))
+    for k, s_ in enumerate(outs):
+        be.call('add_edge_with_type', outb[k], spid[s_], et('N'))
+    be.call('set_inputs', list(inb))
+    be.call('set_outputs', list(outb))
+    return be, spid, inb, outb
+
+
+def webs_case(facts, cols, es, ins, outs, order, ph):
+    """-> (number of webs, '' | what is wrong)"""
+    be, spid, inb, outb = build_pauli(facts, cols, es, ins, outs, order, ph)
+    it = webs_interp(facts)
+    webs = it.local_call('detection_webs::detection_webs', [be.g])
+    if not isinstance(webs, list):
+        raise minirust.NoEval('detection_webs returned %r' % (type(webs),))
+    after = read(be)          # the bipartite diagram the webs refer to
+    if list(after.inputs) != list(inb) or list(after.outputs) != list(outb):
+        return len(webs), 'the inputs / outputs are %s / %s afterwards, they were %s / %s' % (after.inputs, after.outputs, inb, outb)
+    edges = sorted(tuple(sorted(k)) for k in after.e)
+    bnd = set(k for k, (t, _p, _v) in after.v.items() if t == 'B')
+    internal = [e for e in edges if not (set(e) & bnd)]
+
+    def comps(web):
+        ops = web.get('edge_operators') if isinstance(web, dict) else None
+        if not isinstance(ops, dict):
+            raise minirust.NoEval('a web is %r' % (web,))
+        out = {}
+        for k, p in ops.items():
+            e = tuple(sorted(k))
+            if e not in set(edges):
+                return None, 'a web marks %s, which is not an edge of the (bipartite) diagram' % (e,)
+            nm = _short(p)
+            out[e] = {'X': (1, 0), 'Z': (0, 1), 'Y': (1, 1)}.get(nm)
+            if out[e] is None:
+                raise minirust.NoEval('Pauli %r' % (p,))
+        return out, ''
+
+    def valid(assign):
+        """assign: {edge: (x component, z component)}"""
+        for e, (x, z) in assign.items():
+            if (x or z) and (set(e) & bnd):
+                return 'the boundary edge %s is marked' % (e,)
+        for v, (t, _p, _vs) in after.v.items():
+            if t == 'B':
+                continue
+            legs = [e for e in edges if v in e]
+            own = [assign.get(e, (0, 0))[0 if t == 'Z' else 1] for e in legs]      # a Z spider is stabilised by X on all legs, an X spider by Z on all legs
+            other = [assign.get(e, (0, 0))[1 if t == 'Z' else 0] for e in legs]
+            if any(own) and not all(own):
+                return 'at the %s spider %s the %s component is on some legs but not on all' % (t, v, 'X' if t == 'Z' else 'Z')
+            if sum(other) % 2:
+                return 'at the %s spider %s the %s component is on an odd number of legs' % (t, v, 'Z' if t == 'Z' else 'X')
+        return ''
+    vecs = []
+    for w in webs:
+        a, msg = comps(w)
+        if a is None:
+            return len(webs), msg
+        msg = valid(a)
+        if msg:
+            return len(webs), 'a returned web is not valid: %s (web %s on %s)' % (msg, dict((e, 'IXZY'[x + 2 * z]) for e, (x, z) in a.items()), after.show())
+        vecs.append([a.get(e, (0, 0))[i] for e in internal for i in (0, 1)])
+    rk = f2rank_rows(vecs)
+    if rk != len(webs):
+        return len(webs), 'the %d returned webs are linearly dependent (rank %d)' % (len(webs), rk)
+    if len(internal) > 9:
+        raise minirust.NoEval('too many internal edges for the brute-force count')
+    total = 0
+    for bits in itertools.product((0, 1), repeat=2 * len(internal)):
+        a = dict((e, (bits[2 * i], bits[2 * i + 1])) for i, e in enumerate(internal))
+        if not valid(a):
+            total += 1
+    if total != 2 ** len(webs):
+        return len(webs), 'the diagram %s has %d valid webs, the %d returned ones span %d' % (after.show(), total, len(webs), 2 ** len(webs))
+    return len(webs), ''
+
+
+def f2rank_rows(rows):
+    rows = [sum((1 << j) for j, b in enumerate(r) if b) for r in rows]
+    rk = 0
+    while rows:
+        r = rows.pop()
+        if r:
+            rk += 1
+            lb = r & -r
+            rows = [x ^ r if x & lb else x for x in rows]
+    return rk
+
+
+def run_webs(facts):
+    """-> (stats, findings [(case text, what)], declined)"""
+    st = {'cases': 0, 'webs': 0, 'declined': 0, 'with_webs': 0}
+    bad, declined = [], {}
+    counts = {}
+    for cols, es, ins, outs, order, ph in family_pauli():
+        name = '%s spiders, edges %s, inputs on %s, outputs on %s, %s, %s' % (''.join(cols), es, ins, outs, order, 'with pi phases' if ph else 'phase-free')
+        try:
+            try:
+                n, msg = webs_case(facts, cols, es, ins, outs, order, ph)
+            except minirust.Panics as ex:
+                bad.append((name, 'panics: %s' % ex))
+                continue
+            st['cases'] += 1
+            st['webs'] += n
+            st['with_webs'] += 1 if n else 0
+            if msg:
+                bad.append((name, msg))
+            key = (tuple(cols), tuple(es), tuple(ins), tuple(outs))
+            if key in counts and counts[key][0] != n and not msg:
+                bad.append((name, 'the number of webs depends on the numbering of the vertices: %d here, %d with %s' % (n, counts[key][0], counts[key][1])))
+            counts.setdefault(key, (n, order))
+        except minirust.NoEval as ex:
+            st['declined'] += 1
+            declined.setdefault(str(ex)[:90], name)
+    return st, bad, declined
